@@ -95,4 +95,10 @@ def cases4() -> List[Dict[str, Any]]:
         "class C:\n    __doc__ = 'cls'\n    __module__ = 'elsewhere'\n    __qualname__ = 'Q'\n    __dict__ = {}\n    __class__ = int\n    __init__ = None\n    __new__ = 1\n    mro = 1\n    @property\n    def p(self): pass\n    @classmethod\n    def q(cls): pass\n"),
         "pk/__main__.py": "print(1)\n", "pk/__init__.py": "from . import __main__\n", "pk/index.py": "x = 1\n", "pk/moduleIndex.py": "y = 1\n",
         "pk/CON.py": "z = 1\n", "pk/a b.py": "w = 1\n", "pk/-dash.py": "v = 1\n", "pk/déjà.py": "u = 1\n"}))
+    # ---- leads of the round-10 seeding agents
+    A(case("string-annotations-that-do-not-parse", {"pk/m.py": (
+        "from typing import List, TypeAlias\nT = List[int]\nT += \"x[\"\nT: TypeAlias\nU: TypeAlias = 'List['\nU += 'int]'\n"
+        "def f(a: \"" + "-" * 3000 + "1\", b: '(' = 1) -> \"" + "(" * 400 + "\": pass\nv: \"" + "[" * 1500 + "\" = 0\n"
+        "class C:\n    w: 'a b' = 1\n    w += 'c d'\n")}))
+    A(case("class-name-longer-than-a-file-name", {"pk/m.py": "class " + "K" * 260 + ":\n    'doc'\n    def m(self): pass\nclass Short(" + "K" * 260 + "):\n    pass\n"}))
     return out
